@@ -1675,3 +1675,74 @@ func ruleRingSlotIndex(c *Ctx) {
 	}
 	c.Floor("slot/index comparisons in the block queue", n, 1)
 }
+
+// ---------------------------------------------------------------------------
+// fee-sum-cumulative (C08): mempool.checkBalance answers two questions at once - "can the payer afford this
+// transaction on top of what it already has pooled" and "what is its pooled total then". RemoveStale rebuilds the
+// per-payer totals from that second answer (tryAddSendersFee with needCheck). The value returned on the success exit
+// must therefore derive from the payer's previous total (utilityBalanceAndFees.feeSum) as well as from the
+// transaction's fees; returning the transaction's own fee leaves every payer with the fee of its last kept
+// transaction, and the solvency check of the next Add compares against almost nothing.
+func ruleFeeSumCumulative(c *Ctx) {
+	fd := c.P.Func("pkg/core/mempool", "", "checkBalance")
+	if fd == nil {
+		c.Lost("fee-sum-cumulative.anchor", "mempool.checkBalance not found")
+		return
+	}
+	f := c.P.NewFuncCFG(fd)
+	info := fd.Pkg.TypesInfo
+	// sources of a local: right-hand sides of its assignments plus the arguments of the in-place arithmetic methods
+	// called on it (uint256.Int / big.Int style: x.Add(a, b) defines x from a and b)
+	sources := func(o types.Object) map[string]bool {
+		out := map[string]bool{}
+		ast.Inspect(fd.Decl.Body, func(x ast.Node) bool {
+			switch y := x.(type) {
+			case *ast.AssignStmt:
+				for i, l := range y.Lhs {
+					if id, ok := l.(*ast.Ident); ok && info.ObjectOf(id) == o && i < len(y.Rhs) {
+						for m := range f.DirectMentions(y.Rhs[i]) {
+							out[m] = true
+						}
+					}
+				}
+			case *ast.CallExpr:
+				if se, ok := ast.Unparen(y.Fun).(*ast.SelectorExpr); ok {
+					recv := ast.Unparen(se.X)
+					if u, ok := recv.(*ast.UnaryExpr); ok && u.Op == token.AND {
+						recv = ast.Unparen(u.X)
+					}
+					if id, ok := recv.(*ast.Ident); ok && info.ObjectOf(id) == o {
+						for _, a := range y.Args {
+							for m := range f.DirectMentions(a) {
+								out[m] = true
+							}
+						}
+					}
+				}
+			}
+			return true
+		})
+		return out
+	}
+	n := 0
+	for _, r := range f.OKReturns() {
+		ret, ok := r.node.(*ast.ReturnStmt)
+		if !ok || len(ret.Results) < 2 {
+			continue
+		}
+		n++
+		key := fmt.Sprintf("fee-sum-cumulative.checkBalance#%d", n)
+		m := f.DirectMentions(ret.Results[0])
+		if id, ok := ast.Unparen(ret.Results[0]).(*ast.Ident); ok {
+			for k := range sources(info.ObjectOf(id)) {
+				m[k] = true
+			}
+		}
+		if m["pkg/core/mempool#feeSum"] {
+			c.OK(key, c.P.Pos(ret.Pos()), "the total returned on success includes the payer's previous pooled total")
+		} else {
+			c.Fail(key, c.P.Pos(ret.Pos()), "mempool.checkBalance returns on success a value that does not derive from the payer's previous pooled total (feeSum): RemoveStale rebuilds the per-payer totals from it, so after a block every payer is left with the fee of one transaction and the next Add checks solvency against that")
+		}
+	}
+	c.Floor("success exits of checkBalance", n, 1)
+}
